@@ -373,6 +373,21 @@ class World:
                 h.state = "dropped"
         self.add_object(rid, st.get("wc", False))
 
+    def st_leftover(self, st):
+        """A stray temporary file next to the resource, as an earlier save that crashed between writing its temp file and
+        renaming it (or a foreign tool) leaves behind.  No read may touch it, adopt it or create the resource from it."""
+        r = self.res[st["rid"]]
+        if r.store != "file":
+            raise Skip()
+        d, base = os.path.split(r.ident)
+        name = [f"._0b1e2f3a-4c5d-4e6f-8a9b-0c1d2e3f4a5b_{base}", f"{base}.tmp", f".{base}.0b1e2f3a4c5d.tmp", f"{base}~"][st.get("scheme", 0) % 4]
+        raw = seams.REAL["dumps"](st["content"]).encode()
+        if st.get("partial"):
+            raw = raw[:max(1, len(raw) // 2)]
+        with seams.REAL["open"](os.path.join(d, name), "wb") as f:
+            f.write(raw)
+        self.probe("leftover_temp_file")
+
     def st_setcap_keep(self, st):
         """The capacity in force BEFORE any buffered context is entered (a permanent setting, e.g. 0 = write through)."""
         cls = self.cls_of(st["family"], st["kind"])
